@@ -114,7 +114,7 @@ func runHist(c *HistCase) vh.Outcome {
 				i, q.URI, q.Framed, i, got.code, tailOf(got.body), want.code, tailOf(want.body))
 			return o
 		}
-		if d := headerDiff(got.hdr, want.hdr, nil); d != "" {
+		if d := headerDiff(got.hdr, want.hdr, map[string]bool{"Date": true}); d != "" { // (the two answers may straddle a second)
 			o.Err = fmt.Errorf("request %d (%s) through a handler that had served %d requests before: headers differ from those of a fresh handler: %s", i, q.URI, i, d)
 			return o
 		}
